@@ -9,7 +9,7 @@ from cryptography.hazmat.primitives import keywrap
 
 from .. import taps  # noqa: F401
 from .. import blobref, refdc, sdref
-from ..core import Ctx, MachineryError
+from ..core import SPEC, Ctx, MachineryError
 from ..gkdiref import kdf_parameters
 from ..tlc import require_ok, run_tlc
 from ..tracecheck import validate
@@ -84,7 +84,7 @@ def history(ctx: Ctx, n_ops: int, hid: int) -> dict:
 def run(ctx: Ctx) -> int:
     refdc.ensure_ntlm_users()
     cfg = ctx.rundir / "fresh.cfg"
-    cfg.write_text(open(ctx.rundir.parent.parent / "spec" / "MC_Blob_fresh.cfg").read().replace("MaxProtects = 5", f"MaxProtects = {ctx.pick(4, 5)}"))
+    cfg.write_text(open(SPEC / "MC_Blob_fresh.cfg").read().replace("MaxProtects = 5", f"MaxProtects = {ctx.pick(4, 5)}"))
     r = run_tlc("MC_Blob", str(cfg), rundir=ctx.rundir, heap="8g", timeout=2400)
     require_ok(r, "Blob freshness over all histories")
     ctx.add_tlc(r, f"Blob.tla: all histories of <= {ctx.pick(4, 5)} protects (nonce / DH mode, equal and different plaintexts) interleaved with unprotect: "
